@@ -4,12 +4,12 @@ package main
 // from templates and user candidates.
 
 import (
-	"os"
 	"fmt"
 	"go/ast"
 	"go/token"
 	"go/types"
 	"golang.org/x/tools/go/types/typeutil"
+	"os"
 	"sort"
 	"strings"
 )
@@ -772,6 +772,13 @@ func (fx *FuncCtx) execLoop(pre *State, ld *loopDesc) Flow {
 		step Term // signed step per iteration
 	}
 	var lins []linVar
+	type quadVar struct {
+		obj  types.Object
+		v0   Term
+		step ast.Expr
+		sign int
+	}
+	var quadObjs []quadVar
 	for _, o := range objs {
 		o := o
 		k, isInt := intInfo(o.Type())
@@ -838,6 +845,10 @@ func (fx *FuncCtx) execLoop(pre *State, ld *loopDesc) Flow {
 				}
 			}
 		}
+		// accumulator of an affine quantity (packed storage offsets): v += E with E over linear counters
+		if len(ss) == 1 && ss[0].ok && ss[0].top && ss[0].step != nil && fx.mentionsAny(ss[0].step, ms) && k.signed {
+			quadObjs = append(quadObjs, quadVar{o, v0, ss[0].step, ss[0].sign})
+		}
 		// monotonic / sign candidates
 		cands = append(cands,
 			cand{name: o.Name() + ">=" + o.Name() + "0", eval: func(s *State, it Term) Term { v, _ := getInt(s, o); return Ge(v, v0) }},
@@ -847,6 +858,67 @@ func (fx *FuncCtx) execLoop(pre *State, ld *loopDesc) Flow {
 			cands = append(cands, cand{name: o.Name() + ">=0", eval: func(s *State, it Term) Term { v, _ := getInt(s, o); return Ge(v, IntLit(0)) }})
 			cands = append(cands, cand{name: o.Name() + ">=-1", eval: func(s *State, it Term) Term { v, _ := getInt(s, o); return Ge(v, IntLit(-1)) }})
 		}
+	}
+	for _, qv := range quadObjs {
+		qv := qv
+		// E at it=0 and at it=1: substitute the linear counters
+		evalAt := func(shift int64) (Term, bool) {
+			s := pre.clone()
+			for _, l := range lins {
+				if shift != 0 {
+					s.vars[l.obj] = Add(l.v0, Mul(IntLit(shift), l.step))
+				}
+			}
+			var t Term
+			ok := true
+			func() {
+				defer func() {
+					if r := recover(); r != nil {
+						if _, is := r.(unsupported); !is {
+							panic(r)
+						}
+						ok = false
+					}
+				}()
+				fx.discard++
+				defer func() { fx.discard-- }()
+				t = fx.evalTerm(s, qv.step)
+			}()
+			return t, ok && t.Sort == SInt
+		}
+		// the step must not mention non-linear modified variables
+		onlyLin := true
+		ast.Inspect(qv.step, func(n ast.Node) bool {
+			if id, ok := n.(*ast.Ident); ok {
+				if obj := fx.info.ObjectOf(id); obj != nil && ms.vars[obj] {
+					found := false
+					for _, l := range lins {
+						if l.obj == obj {
+							found = true
+						}
+					}
+					if !found {
+						onlyLin = false
+					}
+				}
+			}
+			return true
+		})
+		if !onlyLin {
+			continue
+		}
+		e0, ok0 := evalAt(0)
+		e1, ok1 := evalAt(1)
+		if !ok0 || !ok1 {
+			continue
+		}
+		sg := IntLit(int64(qv.sign))
+		e0 = fx.define(qv.obj.Name()+"E0", e0)
+		dE := fx.define(qv.obj.Name()+"dE", Sub(e1, e0))
+		cands = append(cands, cand{name: fmt.Sprintf("2*(%s-%s0)==±it*(2*E0+dE*(it-1))", qv.obj.Name(), qv.obj.Name()), eval: func(s *State, it Term) Term {
+			v, _ := getInt(s, qv.obj)
+			return Eq(Mul(IntLit(2), Sub(v, qv.v0)), Mul(sg, Mul(it, Add(Mul(IntLit(2), e0), Mul(dE, Sub(it, IntLit(1)))))))
+		}})
 	}
 	// conditionally updated integers (e.g. "best index so far"): relate them to the counters
 	for _, o := range objs {
